@@ -11,6 +11,8 @@ import Flax.Proofs.RngNnx
 import Flax.Proofs.RngJit
 import Flax.Proofs.RngNnxSplit
 import Flax.Proofs.RngNnxHist
+import Flax.Proofs.RngNoReuseJit
+import Flax.Proofs.RngAlias
 
 namespace Flax.C09
 open Flax.Rng
@@ -491,6 +493,71 @@ theorem linen_counters_are_path_addressed (cfg : Cfg) (seeds : List (String × S
     (p : Prog) : runTop cfg seeds p = (specProg cfg p seeds [] [] (fun _ _ => 0)).map (·.1) :=
   runTop_specProg cfg seeds hnd p
 
+/-- **No reuse within a run, `nn.jit` included.**  For every module program — child calls, re-entered children, jit-ted
+methods nested in any way — with the separator on, NUL-free scope names, fewer than 256 draws-plus-jit-ted-calls
+(`p.size`, which bounds every counter), and user seeds that are distinct key atoms under distinct stream names: all keys
+handed out in the run are pairwise different.  (Every draw, including the ones `fork_rngs` makes, consumes a ticket
+(scope path, stream, count); counters only grow, and with the separator a key determines its ticket.)
+Fork-specific hypothesis: the seeds are atoms (`SymKey.seed i`), i.e. no user seed is itself a `fold_in` of another. -/
+theorem no_reuse_within_run_jit (cfg : Cfg) (hsep : cfg.sep = true) (seeds : List (String × SymKey))
+    (hatoms : ∀ s k, find? s seeds = some k → ∃ i, k = .seed i)
+    (hstreams : (seeds.map (·.1)).Nodup) (hseeds : (seeds.map (·.2)).Nodup)
+    (p : Prog) (hnames : ∀ n ∈ p.names, NulFree (strBytes n)) (hsize : p.size < 256)
+    (ks : List SymKey) (h : runTop cfg seeds p = .ok ks) : ks.Nodup := by
+  rw [runTop_specProg cfg seeds hstreams p] at h
+  cases hs : specProg cfg p seeds [] [] (fun _ _ => 0) with
+  | error e => rw [hs] at h; cases h
+  | ok r =>
+    obtain ⟨ks', c'⟩ := r
+    rw [hs] at h
+    simp only [Except.map, Except.ok.injEq] at h
+    subst h
+    exact specProg_nodup cfg hsep seeds hatoms hseeds p hnames hsize ks' c' hs
+
+/-- **The replay on a jit cache hit preserves aliasing.**  Counter dicts are heap objects; a child scope bound before the
+call (`h.walk a p = some b`: the dict reached from the scope's dict `a` through the nested keys `p` *is* the object `b` the
+child holds) still is the object in its parent's entry after `_restore_rng_counters` has written `old + delta` with the
+in-place `set_from_dict`, and reading through the child's own reference gives the replayed count — exactly what running
+the body would have left. -/
+theorem replay_preserves_aliasing (h : CHeap) (hc : Canon h) (a : CRef) (ha : (find? a h.cells).isSome)
+    (body : List (List String × String)) (p : List String) (b : CRef) (hbound : h.walk a p = some b) :
+    (h.hitCall a (deltaOf body)).walk a p = some b ∧
+    ∀ s, (h.hitCall a (deltaOf body)).read b s = (h.runBody a body).read b s := by
+  obtain ⟨_, _, l1, r1⟩ := hitCall_spec h hc a ha body
+  obtain ⟨_, _, _, r2⟩ := runBody_spec a body h hc ha
+  exact ⟨walk_mono _ _ l1 p a b hbound, fun s => by rw [r1, r2]⟩
+
+/-- **A rerun equals the first run**, over any call history: the first call of a jit-ted function traces (its body runs and
+mutates the counters), every later call is a cache hit (in-place replay of the cached delta).  After any number of calls
+every counter, read through any reference, is what actually running the body every time would have produced, and every
+previously bound child scope is still aliased with its parent's entry. -/
+theorem rerun_equals_first_run (h : CHeap) (hc : Canon h) (a : CRef) (ha : (find? a h.cells).isSome)
+    (body : List (List String × String)) (n : Nat) :
+    (∀ b t, (jitCalls a body n (h.runBody a body)).read b t = (runCalls a body (n + 1) h).read b t) ∧
+    (∀ p b, h.walk a p = some b → (jitCalls a body n (h.runBody a body)).walk a p = some b) := by
+  obtain ⟨c1, x1, l1, r1⟩ := runBody_spec a body h hc ha
+  obtain ⟨_, _, l2, r2⟩ := jitCalls_spec a body n _ c1 x1
+  obtain ⟨_, _, _, r3⟩ := runCalls_spec a body (n + 1) h hc ha
+  refine ⟨?_, ?_⟩
+  · intro b t
+    rw [r2, r1, r3, Nat.add_mul]; omega
+  · intro p b hw
+    exact walk_mono _ _ (fun k v hk => l2 k v (l1 k v hk)) p a b hw
+
+/-- **Counter-example for the `dict.update` variant** (not the shipped code): child `k` is bound, the traced call draws once in
+it (count 1); on the next call a replay by `rng_counters.update(updates)` puts a *new* dict object into the parent's entry:
+the bound child still reads 1 instead of 2 (its next key repeats the previous one) and is no longer the object its parent
+refers to.  The in-place replay gives 2 and keeps the object. -/
+theorem replay_by_dict_update_breaks_aliasing :
+    let a : CRef := (0, [])
+    let body : List (List String × String) := [(["k"], "d")]
+    let h1 := ((CHeap.init.pushC a "k").1).runBody a body
+    h1.walk a ["k"] = some (0, ["k"]) ∧ h1.read (0, ["k"]) "d" = 1 ∧
+    (h1.hitCall a (deltaOf body)).read (0, ["k"]) "d" = 2 ∧ (h1.hitCall a (deltaOf body)).walk a ["k"] = some (0, ["k"]) ∧
+    (h1.hitCallUpdate a (deltaOf body)).read (0, ["k"]) "d" = 1 ∧
+    (h1.hitCallUpdate a (deltaOf body)).walk a ["k"] = some (1, ["k"]) ∧
+    (h1.hitCallUpdate a (deltaOf body)).readVia a ["k"] "d" = 2 := by decide
+
 /-- **`nn.jit` counters (repaired `lift.jit`, finding F11).**  With one delta cache per transformed function, every call
 of every jit-ted function, in every process history (any interleaving of functions, fingerprints and counter values, traced
 or served from jax's cache), leaves the counter exactly where running the body would: `c + d fn`. -/
@@ -563,6 +630,22 @@ example : nrun "default" (Rngs.mk' [("default", .seed 0), ("params", .seed 1)])
 example : (seeds0.map (·.1)).Nodup := by decide
 example : ∃ ks, runTop cfg1 seeds0 (.sub "A" (.jit (.draw "x" (.sub "k" (.jit (.draw "dropout" .done) .done) .done))
     (.draw "dropout" .done)) (.draw "params" .done)) = .ok ks ∧ ks.length = 4 ∧ ks.Nodup := ⟨_, rfl, rfl, by decide⟩
+/-- `no_reuse_within_run_jit`: hypotheses on a program with nested jit-ted methods and a re-entered child -/
+example : (∀ s k, find? s seeds0 = some k → ∃ i, k = SymKey.seed i) := by
+  intro s k h
+  simp only [seeds0, find?_cons, find?_nil] at h
+  split at h
+  · exact ⟨0, by simpa using h.symm⟩
+  · split at h
+    · exact ⟨1, by simpa using h.symm⟩
+    · cases h
+example : let p : Prog := .sub "A" (.jit (.draw "x" (.sub "k" (.jit (.draw "dropout" .done) .done) .done))
+      (.sub "k" (.draw "dropout" .done) (.draw "dropout" .done))) (.draw "params" .done)
+    (∀ n ∈ p.names, NulFree (strBytes n)) ∧ p.size < 256 := by unfold NulFree; decide
+/-- `replay_preserves_aliasing` / `rerun_equals_first_run`: the initial heap with a bound child satisfies the hypotheses -/
+example : Canon (CHeap.init.pushC (0, []) "k").1 ∧ (find? ((0, []) : CRef) (CHeap.init.pushC (0, []) "k").1.cells).isSome ∧
+    (CHeap.init.pushC (0, []) "k").1.walk (0, []) ["k"] = some (0, ["k"]) :=
+  ⟨(pushC_spec CHeap.init canon_init (0, []) (by decide) "k").2.1, by decide, by decide⟩
 /-- `nnx_no_replay_along_history`: an accepted history with two split rounds (1-D and 2-D), 13 keys -/
 example : ∃ outs, srun (stateOf "params" (.seed 0) (.top 0))
     [.call, .split [2], .lanes 2, .lanes 1, .restore, .call, .split [2, 2], .lanes 1, .restore, .call] = .ok outs ∧
